@@ -11,10 +11,10 @@ trap cleanup EXIT
 if [ "$1" = "-e" ]; then
   sed -i "$2" "$W/$3"; shift 3
 else
-  git -C "$W" apply "$1"; shift 1
+  git -C "$W" apply --3way "$1" >/dev/null 2>&1 || { git -C "$W" reset -q --hard HEAD; git -C "$W" apply "$1"; }; shift 1
 fi
 [ "$1" = "--" ] && shift
-git -C "$W" diff --stat | tail -1
+git -C "$W" diff HEAD --stat | tail -1
 for p in "$@"; do
   NSV_REPO="$W" /verif/check "$p" 2>&1 | grep -E "key:|^C[0-9]+ tier|MACHINERY" | sed 's/^ *key: /   /' | head -40
 done
